@@ -34,7 +34,7 @@ Ends == {None} \cup {Some(n) : n \in Ints}
 
 OtherDocs == {JNull, JTrue, JInt(3), JStr(<<97, 98, 99>>), MkObj(<<JMem(<<97>>, JInt(1))>>)}
 
-EnumCases(z) ==
+EnumCases(zzdummy) ==
   {Case(k, len, a, b, c, FALSE, IotaDoc(len)) :
       k \in {"slice", "method"}, len \in 0..MaxLen, a \in Ends, b \in Ends, c \in Ints \ {0}}
   \cup {Case("slice", len, a, b, 1, TRUE, IotaDoc(len)) : len \in 0..MaxLen, a \in Ends, b \in Ends}
@@ -44,12 +44,12 @@ EnumCases(z) ==
   \cup {Case("otheridx", 0, None, None, n, FALSE, d) \* index of a non-array
            : n \in {0, 1, -1}, d \in OtherDocs}
 
-SpellCases(z) ==
+SpellCases(zzdummy) ==
   LET ps == ndJsonDeserialize(IOEnv.IN)
   IN [i \in DOMAIN ps |-> Case(ps[i].kind, ps[i].len, ps[i].start, ps[i].stop, ps[i].step,
                                ps[i].stepomit, IotaDoc(ps[i].len))]
 
-Cases(z) == IF IOEnv.MODE = "enum" THEN SetToSeq(EnumCases(0)) ELSE SpellCases(0)
+Cases(zzdummy) == IF IOEnv.MODE = "enum" THEN SetToSeq(EnumCases(0)) ELSE SpellCases(0)
 
 ASSUME ndJsonSerialize(IOEnv.OUT, Cases(0))
 ASSUME PrintT(<<"CASES", Len(Cases(0))>>)
